@@ -998,9 +998,15 @@ class HistogramBase(abc.ABC):
             if scalar < 0 and not config.free_arithmetics:
                 # Also for empty bins (whose contents stay zero) and for the missed counts
                 raise ValueError("Cannot have negative frequencies.")
-            self.frequencies = self.frequencies * scalar
+            # Both new arrays first: if one of them is refused (e.g. squared errors that left
+            # the range of an integer type), the histogram stays as it was
+            new_frequencies = self.frequencies * scalar
             # Not `scalar**2`: the square of a numpy integer scalar wraps around in its own type
-            self.errors2 = self.errors2 * scalar * scalar
+            new_errors2 = self.errors2 * scalar * scalar
+            if np.any(np.asarray(new_errors2) < 0):
+                raise ValueError("Cannot have negative square errors.")
+            self.frequencies = new_frequencies
+            self.errors2 = new_errors2
             self._missed = self._missed * scalar
             if hasattr(self, "_stats"):
                 self._stats = self._stats * scalar
@@ -1031,6 +1037,9 @@ class HistogramBase(abc.ABC):
             if other < 0 and not config.free_arithmetics:
                 # Also for empty bins (whose contents stay zero) and for the missed counts
                 raise ValueError("Cannot have negative frequencies.")
+            if other == 0:
+                # Before anything is touched (the statistics would raise it only at the end)
+                raise ZeroDivisionError("Cannot divide a histogram by zero.")
             # At least double precision (more if the divisor itself is e.g. a long double)
             self._coerce_dtype(np.result_type(np.float64, np.asarray(other).dtype))
             self.frequencies = self.frequencies / other
